@@ -105,7 +105,7 @@ def pds_text(rng):
     return ''.join(parts)
 
 
-FAMILIES = ('byte_sweeps', 'length_rewrites', 'truncations', 'extensions', 'multipoint')
+FAMILIES = ('byte_sweeps', 'length_rewrites', 'hex_bitmap_spellings', 'typed_content_words', 'truncations', 'extensions', 'multipoint')
 
 
 def family_iter(ctx, name, data, L, enc, k):
@@ -115,6 +115,10 @@ def family_iter(ctx, name, data, L, enc, k):
         return mutate.length_rewrites(data, L, enc)
     if name == 'truncations':
         return mutate.truncations(data)
+    if name == 'hex_bitmap_spellings':
+        return mutate.hex_bitmap_spellings(data, len(L.bitmap) == 32)
+    if name == 'typed_content_words':
+        return mutate.typed_content_words(data, L, msgwork.cfg_of(base(ctx, k)[0]), enc)
     if name == 'extensions':
         return mutate.extensions(data)
     return mutate.multipoint(data, ctx.rng_global('multi', k), 3000 if ctx.tier == 'quick' else 8000)
@@ -143,6 +147,10 @@ def cases(ctx):
         i += 1
         if ctx.mine(i):
             yield {'kind': 'process', 'base': k}
+    for fmt in ('1014', 'vbs'):
+        i += 1
+        if ctx.mine(i):
+            yield {'kind': 'scaling', 'fmt': fmt}
 
 
 def lib_error(ctx, which):
@@ -241,6 +249,8 @@ def judge(ctx, case):
         return judge_file(ctx, case)
     if kind == 'process':
         return judge_process(ctx, case)
+    if kind == 'scaling':
+        return judge_scaling(ctx, case)
     if kind == 'onefile':
         fdata, enc, blocked = unhx(case['data']), case['enc'], case['blocked']
         for which in ('VbsReader', 'IpmReader'):
@@ -338,6 +348,42 @@ def judge_file(ctx, case):
     if len(ctx.samples) < 5:
         ctx.sample({'file_base': k, 'format': '1014' if blocked else 'vbs', 'enc': enc, 'records': len(wires),
                     'file_len': len(data), 'file_mutants': len(mutants)})
+
+
+def judge_scaling(ctx, case):
+    """
+    "Terminates promptly" for big files: reading must scale roughly linearly with file size.  Measured in CPU time of this
+    process (not wall-clock), on a 1 MB and an 8 MB file of the same record shape: 8x the data may cost at most 24x the
+    CPU time (3x slack over linear), and the verdict is only drawn when the large run took over 2 CPU-seconds - below
+    that nothing is slow enough to call a breach.  A quadratic reader (8 MB: 12 s and more) is far outside both bounds.
+    """
+    import time
+    blocked = case['fmt'] == '1014'
+    rec = bytes(range(256)) * 4
+    times = {}
+    for label, nrec in (('1MB', 1000), ('8MB', 8000)):
+        stream = refb.vbs([rec[:1000 + (j % 17)] for j in range(nrec)])
+        data = refb.block(stream) if blocked else stream
+        best = None
+        for rep in range(2):
+            t0 = time.process_time()
+            kind, val = ctx.call(lambda: sum(1 for _ in ctx.mciipm.VbsReader(io.BytesIO(data), blocked=blocked)),
+                                 budget=sentinel.budget_for(len(data)))
+            dt = time.process_time() - t0
+            best = dt if best is None else min(best, dt)
+            if kind != 'ok' or val != nrec:
+                ctx.violation('scaling:reader_failed_on_large_file', {'case': case, 'size': label, 'outcome': repr(val)[:200]})
+                return
+            if dt > 2 and label == '8MB':
+                break
+        times[label] = best
+    ctx.case_done(['scaling', case['fmt']])
+    ratio = times['8MB'] / max(times['1MB'], 1e-6)
+    ctx.count('scaling measurements')
+    ctx.seen('cpu seconds for 8x the data vs 1x (%s)' % case['fmt'], '%.2fs vs %.2fs = x%.1f' % (times['8MB'], times['1MB'], ratio))
+    if times['8MB'] > 2.0 and ratio > 24:
+        ctx.violation('scaling:super_linear_read_time:%s' % case['fmt'],
+                      {'case': case, 'cpu_s_1MB': round(times['1MB'], 3), 'cpu_s_8MB': round(times['8MB'], 3), 'ratio': round(ratio, 1)})
 
 
 def judge_process(ctx, case):
@@ -451,7 +497,7 @@ def canaries(ctx):
 def require(m):
     reasons = []
     c = m['counters']
-    for fam in FAMILIES + ('random',):
+    for fam in tuple(f for f in FAMILIES if f != 'hex_bitmap_spellings') + ('random',):
         if not c.get('mutants from family ' + fam):
             reasons.append('mutation family never ran: ' + fam)
     for need in ('loads outcome: returned', 'loads outcome: library_error'):
@@ -461,6 +507,8 @@ def require(m):
         reasons.append('tools never run')
     if not c.get('command-line processes run: mci_ipm_to_csv') or not c.get('command-line processes run: mideu extract'):
         reasons.append('command-line processes never run')
+    if not c.get('scaling measurements'):
+        reasons.append('scaling never measured')
     if not c.get('IpmReader file iterations'):
         reasons.append('readers never run on mutated files')
     return reasons
